@@ -95,6 +95,14 @@ func TestC11(t *testing.T) {
 		return
 	}
 	rapidCheck(t, func(rt *rapid.T) {
+		switch rapid.IntRange(0, 24).Draw(rt, "part_special") {
+		case 0:
+			parallelPart(rt, rec, "C11", []struct{ T, Real byte }{{refenc.TNewDecimal, 0}})
+			return
+		case 1:
+			reannouncePart(rt, rec, "C11")
+			return
+		}
 		col := gen.ColumnOf(rt, refenc.TNewDecimal, 0, gen.ColumnOpt{})
 		if rapid.Bool().Draw(rt, "uniform_ps") {
 			col.P = rapid.IntRange(1, 65).Draw(rt, "p")
